@@ -765,3 +765,56 @@ func c10MissingImportIsError(c *Ctx) {
 	})
 	c.Ob(rule, "ls-files/missing-import-is-error", fr.Decl.Pos(), found && ok, true, "an import path with no file info returns an error (lookup found=%v, error returned=%v)", found, ok)
 }
+
+// c10DepGraphLoops (LOOP-EARLY-SUCCESS for C10, added with finding F25): the functions of the dep-graph command that
+// walk a module's dependencies must visit all of them: a `return nil` inside the loop over the dependencies ends the
+// walk at the first dependency that takes that branch and the rest are missing from the printed graph.
+func c10DepGraphLoops(c *Ctx) {
+	const rule = "DEPS-ALL-VISITED"
+	c.Rule(rule, "the dep-graph printers visit every dependency (no success return inside a loop over dependencies)", 1)
+	p := c.P
+	pk := p.Pkg("private/buf/cmd/buf/command/dep/depgraph")
+	if pk == nil {
+		c.Fail(rule, "anchor", token.NoPos, "depgraph package not found")
+		return
+	}
+	info := pk.TypesInfo
+	n := 0
+	for _, fr := range p.FuncsOf(pk) {
+		if fr.Decl.Body == nil {
+			continue
+		}
+		ast.Inspect(fr.Decl.Body, func(x ast.Node) bool {
+			rs, ok := x.(*ast.RangeStmt)
+			if !ok {
+				return true
+			}
+			// a loop over modules / dependencies
+			sl, ok := info.TypeOf(rs.X).Underlying().(*types.Slice)
+			if !ok || namedName(sl.Elem()) != "Module" {
+				return true
+			}
+			n++
+			bad := ""
+			inspectNoFuncLit(rs.Body, func(m ast.Node) bool {
+				if r, ok := m.(*ast.ReturnStmt); ok && len(r.Results) >= 1 {
+					allNil := true
+					for _, e := range r.Results {
+						if !isNilIdent(info, e) {
+							allNil = false
+						}
+					}
+					if allNil {
+						bad = p.Pos(r.Pos())
+					}
+				}
+				return true
+			})
+			c.Ob(rule, fr.ID()+"/range "+exprString(rs.X), rs.Pos(), bad == "", true, "success return inside the loop over %s: %q (the remaining dependencies would be dropped)", exprString(rs.X), bad)
+			return true
+		})
+	}
+	if n == 0 {
+		c.Fail(rule, "sites", token.NoPos, "no loop over []bufmodule.Module in depgraph")
+	}
+}
